@@ -55,7 +55,15 @@ impl FileOperations for WriteAheadLog {
         // Read block 0 (global header)
         let mut header_buf: BlockZero = BlockZero::new(default_block_size);
         file.seek(SeekFrom::Start(0))?;
-        file.read_exact(header_buf.as_mut())?;
+        if file.metadata()?.len() < default_block_size as u64 {
+            // The log was created or truncated but block zero never reached the disk (the process
+            // died before the next force, e.g. right after `create` or in the middle of a
+            // checkpoint): this is an empty log, not a corrupt one. Give it its header.
+            header_buf = BlockZero::alloc(0, default_block_size);
+            file.write_all(header_buf.as_ref())?;
+        } else {
+            file.read_exact(header_buf.as_mut())?;
+        }
 
         // Usar el block_size del archivo, o el default si es 0
         let block_size = header_buf.metadata().wal_header.block_size as usize;
